@@ -559,7 +559,7 @@ RENAMES = [
  ("B.rename.tl_incoming", ["C03", "C04", "C18"], "src/platform/thread_local_ctxt.rs", r"\bincoming\b", "inc_frame", 180, 215),
  ("B.rename.span_ctxt", ["C04", "C05", "C18"], "src/span.rs", r"\bspan_ctxt\b", "child_ids", 915, 975),
  ("B.rename.level_node", ["C17"], "src/level.rs", r"\bnode\b", "cursor", 330, 390),
- ("B.rename.otlp_channel", ["C12", "C07", "C09"], "emitter/otlp/src/client.rs", r"\bchannel\b", "pending", 552, 570),
+ ("B.rename.otlp_channel", ["C12", "C07", "C09"], "emitter/otlp/src/client.rs", r"\bchannel\b", "pending", 573, 596),
  ("B.rename.tl_active", ["C03", "C02", "C19"], "src/platform/thread_local_ctxt.rs", r"\bactive\b", "slots", 185, 215),
  ("B.rename.tl_span_props", ["C03", "C19", "C04"], "src/platform/thread_local_ctxt.rs", r"\bspan_props\b", "frame_map", 125, 160),
  ("B.rename.template_ai", ["C16"], "core/src/template.rs", r"\bai\b", "left_part", 180, 260),
